@@ -488,6 +488,13 @@ fn record(shared: &Mutex<Shared>, case: &Case, r: &ChildResult, unit: &str, shri
 fn run_unit_runner(cfg: &RunCfg, unit: &Unit, runner_idx: usize, cases: u32, feat: u8, steps_hint: u32, known: &Known, shared: &Arc<Mutex<Shared>>, stop: &Arc<AtomicBool>) {
     let g = GenCfg { thorough: cfg.thorough, feat, steps_hint, include_known: cfg.include_known };
     let strat = (unit.strategy)(&g);
+    // one case in four of the families that run on the may runtime is a store buffering case
+    let strat = (strat, 0u8..4).prop_map(|(mut c, w)| {
+        if w == 3 && crate::fam::FAMILIES.iter().any(|f| f.name == c.fam && f.runtime) {
+            c.weak = 1;
+        }
+        c
+    });
     let rng = TestRng::from_seed(RngAlgorithm::ChaCha, &seed_bytes(cfg.seed, cfg.prop.id, unit.label, runner_idx));
     let mut runner = TestRunner::new_with_rng(
         Config { cases, failure_persistence: None, max_shrink_iters: 3000, max_global_rejects: 65536, ..Config::default() },
